@@ -645,13 +645,16 @@ def judge(ctx, case, res, pre):
             for i, g in enumerate(gases):
                 if x[i] > 0:
                     chk("ideal_share", abs(peq[i] - x[i] * p) / p, TOL_EOS, f"{g}: partial pressure {peq[i]} is not the share {x[i]} of {p}")
+                stored = cx.get("p_init") if gtype != "fixedV_eq" else None
+                if stored is None:
+                    continue            # -equilibrate: the stored pressure is the result of the initial equilibration, not observable here
                 dev = abs(pp[i] - x[i] * p) / p
-                if dev > TOL_EOS:
-                    # known departure: for a phase without critical constants (pr_in false) PR_P is the pressure stored in the GAS_PHASE
-                    # entity (input value, result of the initial equilibration or of the last SAVE), not that of the punched state
-                    cnt["PR_P_is_stored_pressure_ideal_phase"] = cnt.get("PR_P_is_stored_pressure_ideal_phase", 0) + 1
+                if dev > TOL_EOS and pp[i] == stored[i]:
+                    # known departure: for a phase without critical constants PR_P is the pressure stored in the GAS_PHASE entity
+                    # (bit for bit the input value), not that of the punched state
+                    cnt["PR_P_is_stored_input_pressure"] = cnt.get("PR_P_is_stored_input_pressure", 0) + 1
                     checks.append(("FINDING:" + FINDING4_KEY, dev, TOL_EOS,
-                                   f"ideal gas phase: PR_P(\"{g}\")={pp[i]} is the stored pressure of the component, the state has x*P={x[i] * p} (GAS_P={p})"))
+                                   f"ideal gas phase: PR_P(\"{g}\")={pp[i]} is the input partial pressure, the state has x*P={x[i] * p} (GAS_P={p})"))
                 else:
                     chk("ideal_PR_P_share", dev, TOL_EOS, f"{g}: PR_P={pp[i]} is not the share {x[i]} of {p}")
             continue
